@@ -98,6 +98,18 @@ Theorem C19_sparse_vertex_c : forall a b c rest,
   ~ det2 (vx b - vx a) (vy b - vy a) (vx c - vx a) (vy c - vy a) == 0 ->
   tri_interp ((a, b, c) :: rest) (vx c) (vy c) == vz c.
 Proof. exact tri_interp_vertex_c. Qed.
+(* barycentric coordinates are unique: any weights summing to 1 that reproduce the query point in a non-degenerate
+   triangle are the ones the model computes, so the interpolated value cannot depend on vertex order or on how the weights
+   were obtained; and with a positive scale the scaled value is 0 or between scale x min and scale x max *)
+Theorem C19_sparse_unique : forall a b c x y w0 w1 w2 u0 u1 u2, bary a b c x y = Some (w0, w1, w2) ->
+  u0 + u1 + u2 == 1 -> x == u0 * vx a + u1 * vx b + u2 * vx c -> y == u0 * vy a + u1 * vy b + u2 * vy c ->
+  w0 == u0 /\ w1 == u1 /\ w2 == u2.
+Proof. exact bary_unique. Qed.
+Theorem C19_sparse_scaled_range : forall scale lo hi tris x y, 0 < scale -> Forall (tri_in lo hi) tris ->
+  sparse_depth scale tris x y == 0 \/ scale * lo <= sparse_depth scale tris x y <= scale * hi.
+Proof. exact sparse_depth_range. Qed.
+Print Assumptions C19_sparse_unique.
+Print Assumptions C19_sparse_scaled_range.
 Print Assumptions C19_sparse_point.
 Print Assumptions C19_sparse_affine.
 Print Assumptions C19_sparse_vertex_c.
